@@ -3,7 +3,7 @@ use paseto_core::paserk::IdVersion;
 
 /// [C13] hash_key(header, text) == SHA-384("k1" || header || text)[0:33], for the three id kinds
 pub fn id_is_spec(L: usize) {
-    let tb: [u8; 80] = kani::any();
+    let tb: [u8; 160] = kani::any();
     let text = &tb[..L];
     let which: u8 = kani::any();
     let h: &'static str = match which { 0 => ".lid.", 1 => ".sid.", _ => ".pid." };
@@ -43,13 +43,14 @@ pub fn canary_inputs() {
 }
 macro_rules! inst {
     ($($name:ident = $f:ident($($g:literal),*);)*) => { $(
-        #[kani::proof] #[kani::unwind(100)]
+        #[kani::proof] #[kani::unwind(200)]
         pub fn $name() { $f($($g),*); kani::cover!(true, "harness end reachable"); }
     )* };
 }
 inst! {
-    // k1.local.<43 chars> = 52, k1.secret.<64 chars> = 74, k1.public.<66 chars> = 76
-    id_is_spec_52 = id_is_spec(52); id_is_spec_74 = id_is_spec(74); id_is_spec_76 = id_is_spec(76); id_is_spec_1 = id_is_spec(1);
+    // k1.local.<43 chars> = 52 bytes. Real k1.public / k1.secret texts (~402 / ~1600 characters of base64 DER) exceed the
+    // model's message capacity (MCAP = 176); hash_key is length-generic, 100 and 160 bytes stand in for them.
+    id_is_spec_52 = id_is_spec(52); id_is_spec_100 = id_is_spec(100); id_is_spec_160 = id_is_spec(160); id_is_spec_1 = id_is_spec(1);
     id_domain_separated_h = id_domain_separated();
     canary_inputs_h = canary_inputs();
 }
